@@ -76,7 +76,8 @@ def loadOne : RM RObj :=
   RM.bind (liftE (allocE [s0, s1, s2])) fun _ =>
   RM.bind (dataLoop (s0.toNat * s1.toNat * s2.toNat) []) fun _ =>
   RM.pure { atcoords := some [natom.toNat, 3], atnums := some [natom.toNat], atcorenums := some [natom.toNat],
-            cellvecs := some [3, 3], cube := some [s0.toNat, s1.toNat, s2.toNat] }
+            cellvecs := some [3, 3], cube := some [s0.toNat, s1.toNat, s2.toNat],
+            hasTitle := true }
 
 def read (ls : List Str) : Out RObj := run loadOne ls
 
